@@ -140,6 +140,16 @@ func runC05(cx *ctx) {
 			for k := 1 + rr.Intn(4); k > 0; k-- {
 				ps = append(ps, mkParty(rr, rr.Intn(3)))
 			}
+			// whatever stanzas another implementation of age.Recipient (a plugin, say) returns are written out as
+			// the format prescribes too: any number of arguments, any body length
+			if rr.Intn(3) == 0 {
+				var gs []*age.Stanza
+				for k := 1 + rr.Intn(2); k > 0; k-- {
+					gs = append(gs, greaseStanza(rr))
+				}
+				pos := rr.Intn(len(ps) + 1)
+				ps = append(ps[:pos], append([]*party{newCustom(gs, nil, false, false)}, ps[pos:]...)...)
+			}
 			pt := rr.Bytes(rr.Intn(300))
 			c := fencCase("enc-mixed", rr, ps, pt, segment(rr, pt))
 			c.SpecIsOracle = "the independent reference implementation does not reproduce the file the library writes from the same random values"
